@@ -11,6 +11,7 @@
 #include <cocls/shared_future.h>
 #include <cocls/publisher.h>
 #include <memory>
+#include <array>
 #include <optional>
 #include <string>
 #include <sstream>
@@ -158,6 +159,47 @@ inline void shared_future_reference_source(const vf::opts &o, vf::report &R, uin
         if (err.empty() && (tracked::ctor.load() != ctor0 || tracked::dtor.load() != dtor0)) err = "the shared state constructed / destroyed payload objects (" + std::to_string(tracked::ctor.load() - ctor0) + " / " + std::to_string(tracked::dtor.load() - dtor0) + ") although its result only refers to the resolver's object";
         if (!err.empty()) { R.violation("monitor:payload|shared_future_reference_source", err, vf::jobj().kv("case", (unsigned long long)cn).kv("seed", (unsigned long long)o.seed).kv("desc", desc).str()); continue; }
         R.nontrivial_cases++; R.sig(desc);
+    }
+}
+
+// ---- MANY awaiters on copies of one shared_future (more than a suspend point carries inline), result produced by every kind of resolver
+inline cocls::async<int> sv_sf_source(cocls::future<void> &gate) { bool hv = co_await gate.has_value(); (void)hv; co_return 77; }
+inline cocls::async<void> sv_sf_waiter(cocls::shared_future<int> sf, int &val, int &rel) { try { int &v = co_await sf; val = v; } catch (...) { val = -1; } rel++; }
+template <typename P> cocls::async<void> sv_sf_coro_resolver(P &p, bool await_it, int &continued) { if (await_it) { bool ok = co_await p(77); (void)ok; } else p(77); continued++; }
+inline void shared_future_many_awaiters(const vf::opts &o, vf::report &R, uint64_t cases) {
+    static const int counts[] = {1, 2, 3, 4, 4, 5, 6, 7, 8, 9, 12, 13};
+    vf::rng master(vf::mix(o.seed, 0x57a6));
+    for (uint64_t cn = 0; cn < cases && R.nviol() < 5; cn++) {
+        vf::rng r(master.next());
+        vf::set_crash_ctx(R.prop.c_str(), "shared_future_many_awaiters", o.seed, cn);
+        int n = counts[r.below(12)], mode = (int)r.below(4);
+        static const char *mn[] = {"promise called from ordinary code", "coroutine co_awaits the promise's suspend point", "coroutine discards the promise's suspend point", "result produced by a coroutine (shared_future built from a function returning its future)"};
+        std::string desc = std::to_string(n) + " awaiters on copies, " + mn[mode], err;
+        auto val = std::make_unique<std::array<int, 16>>(); auto rel = std::make_unique<std::array<int, 16>>(); val->fill(-9); rel->fill(0);
+        int continued = 0;
+        {
+            cocls::future<void> gate; cocls::promise<void> gp = gate.get_promise();
+            std::optional<cocls::shared_future<int>> sf;
+            if (mode == 3) sf.emplace([&] { return sv_sf_source(gate).start(); });
+            else sf.emplace();
+            auto run = [&](auto &prom) {
+                for (int i = 0; i < n; i++) sv_sf_waiter(*sf, (*val)[(size_t)i], (*rel)[(size_t)i]).detach();
+                if (mode == 0) prom(77);
+                else { sv_sf_coro_resolver(prom, mode == 1, continued).detach(); if (continued != 1) err = "resolving coroutine continued " + std::to_string(continued) + " times"; }
+            };
+            if (mode == 3) { for (int i = 0; i < n; i++) sv_sf_waiter(*sf, (*val)[(size_t)i], (*rel)[(size_t)i]).detach(); gp(); }
+            else { auto prom = sf->get_promise(); run(prom); }
+            if (r.chance(1, 2)) sf.reset(); // the handle of ordinary code goes away; the awaiters' copies are gone as they finished
+            for (int i = 0; i < n && err.empty(); i++) {
+                if ((*rel)[(size_t)i] != 1) err = "awaiter #" + std::to_string(i) + " of " + std::to_string(n) + " resumed " + std::to_string((*rel)[(size_t)i]) + " times";
+                else if ((*val)[(size_t)i] != 77) err = "awaiter #" + std::to_string(i) + " observed " + std::to_string((*val)[(size_t)i]) + " instead of 77";
+            }
+            if (!err.empty() && sf) { (void)new cocls::shared_future<int>(*sf); } // keep the state alive: awaiters may still be registered
+        }
+        R.cases++;
+        if (!err.empty()) { R.violation("monitor:wakeup|shared_future_many_awaiters", err, vf::jobj().kv("case", (unsigned long long)cn).kv("seed", (unsigned long long)o.seed).kv("desc", desc).str()); continue; }
+        if (n >= 4) R.nontrivial_cases++;
+        R.sig(desc, n >= 4);
     }
 }
 
